@@ -113,6 +113,24 @@ def plain_tok(b):
     t = tok(b)
     return not t.startswith("hex:")
 
+def pipeline(rng, v, valid=None):
+    """packets written in the SAME write behind a CONNECT that will be refused (the only way to get packets to the broker
+    "after a failed CONNECT": the server closes the connection itself). -> (bytes, kinds for the model)"""
+    out, kinds = b"", []
+    for _ in range(rng.randint(1, 4)):
+        r = rng.random()
+        if r < 0.4:
+            q = rng.choice([0, 0, 1, 2])
+            out += enc_publish(v, b"t/pl", b"pl", q, True, 7); kinds.append(f"p{q}")
+        elif r < 0.65:
+            out += enc_subscribe(v, 9, b"#", 1); kinds.append("o")
+        elif r < 0.8:
+            out += PINGREQ; kinds.append("o")
+        else:
+            u, p = valid if valid else (None, None)
+            out += enc_connect(v, b"late", True, u, p); kinds.append("o")      # a second CONNECT, possibly with valid credentials
+    return out, kinds
+
 def gen(rng):
     alg = rng.choice(ALGS)
     pf, cwd = rng.choice([("rel", "same"), ("rel", "same"), ("rel", "other"), ("abs", "other"), ("abs", "same")])
@@ -166,35 +184,46 @@ def gen(rng):
         if u is not None: extra += f" user={tok(u)}"
         if p is not None: extra += f" pass={tok(p)}"
         if am is not None: extra += f" am={am.decode()} ad={ad.decode()}"
+        if am is not None:
+            want = bool(enh and am == b"M" and ad == b"go")
+        else:
+            want = u is not None and u in accts and accts[u] == (p or b"") and not (alg == "bcrypt" and len(p or b"") > 72)
+        challenge = am is not None and enh and am == b"M" and ad == b"c"
+        raw = enc_connect(v, cid.encode(), True, u, p, am, ad)
+        if bad_utf8:
+            ops.append(f"dial {name} v={v}")
+            ops.append(f"raw {name} {raw.hex()} k=garbage")
+            return name, v, None          # the broker closes the socket
+        ann = f"k=connect v={v} cid={cid} cs=1 uf={int(u is not None)} pf={int(p is not None)}" + extra
+        if not want and not challenge and len(raw) < 600 and rng.random() < 0.5:
+            # refused CONNECT with packets pipelined behind it in the same write
+            valid = next(((a, accts[a]) for a in sorted(accts)), None)
+            more, kinds = pipeline(rng, v, valid)
+            ops.append("api state")
+            ops.append(f"dial {name} v={v}")
+            ops.append(f"raw {name} {(raw + more).hex()} {ann} more={','.join(kinds)}")
+            ops.append("api state")
+            return name, v, None
         if simple:
             ops.append(f"conn {name} {cid} v={v} cs=1" + extra)
         else:
             ops.append(f"dial {name} v={v}")
-            raw = enc_connect(v, cid.encode(), True, u, p, am, ad)
-            if bad_utf8:
-                ops.append(f"raw {name} {raw.hex()} k=garbage")
-                return name, v, None          # the broker closes the socket
-            ops.append(f"raw {name} {raw.hex()} k=connect v={v} cid={cid} cs=1 uf={int(u is not None)} pf={int(p is not None)}" + extra)
-        closed = False
-        if am is not None:
-            want = False
-            if enh and am == b"M" and ad == b"go":
-                want = True
-            if enh and am == b"M" and ad == b"c":
-                closed = True      # no further traffic on this connection: on the unpatched tree the exchange dead-locks
-                ans = rng.choice([b"ok", b"ok", b"more", b"bad"])
-                ops.append(f"raw {name} {enc_auth(0x18, ans).hex()} k=auth code=24 ad={ans.decode()}")
-                want = ans == b"ok"
-                if ans == b"more":
-                    ans2 = rng.choice([b"ok", b"bad"])
-                    ops.append(f"raw {name} {enc_auth(0x18, ans2).hex()} k=auth code=24 ad={ans2.decode()}")
-                    want = ans2 == b"ok"
-        else:
-            want = u is not None and u in accts and accts[u] == (p or b"") and not (alg == "bcrypt" and len(p or b"") > 72)
-        return name, v, (None if closed else want)
+            ops.append(f"raw {name} {raw.hex()} {ann}")
+        if challenge:
+            ans = rng.choice([b"ok", b"ok", b"more", b"bad"])
+            ops.append(f"raw {name} {enc_auth(0x18, ans).hex()} k=auth code=24 ad={ans.decode()}")
+            want = ans == b"ok"
+            if ans == b"more":
+                ans2 = rng.choice([b"ok", b"bad"])
+                ops.append(f"raw {name} {enc_auth(0x18, ans2).hex()} k=auth code=24 ad={ans2.decode()}")
+                want = ans2 == b"ok"
+        if not want:
+            ops.append("api state")
+            return name, v, None           # refused: the server has closed the connection
+        return name, v, True
 
     def traffic(name, v, want):
-        """packets on the connection after its CONNECT was answered (at most 6: `client.in` holds 8), between two snapshots"""
+        """packets on an accepted connection, between two snapshots"""
         nonlocal pid, tagn
         ops.append("api state")
         for _ in range(rng.randint(1, 5)):
@@ -204,19 +233,14 @@ def gen(rng):
                 ops.append(f"sub {name} {pid} t/#|1")
             elif r < 0.6:
                 tagn += 1
-                q = rng.choice([0, 0, 1]) if v == 5 else rng.choice([0, 1, 2])
+                q = rng.choice([0, 1, 2])
                 ops.append(f"pub {name} t/x{tagn % 3} q={q} pid={pid if q else 0} r={rng.choice([0, 1, 1])} tag=u{tagn}")
-                if q == 2 and want:
+                if q == 2:
                     ops.append(f"rel {name} {pid}")
-                if v == 5 and q > 0 and not want:
-                    break      # the broker closes the socket
-            elif r < 0.75:
+            elif r < 0.8:
                 ops.append(f"ping {name}")
-            elif r < 0.85:
+            else:
                 ops.append(f"unsub {name} {pid} t/#")
-            elif not want:
-                # a second CONNECT (same protocol version: the broker's packet reader follows the last CONNECT it has read)
-                ops.append(f"raw {name} {enc_connect(v, b'late', True, None, None).hex()} k=connect v={v} cid=late cs=1 uf=0 pf=0")
         ops.append("api state")
 
     for _ in range(rng.randint(5, 14)):
@@ -254,24 +278,23 @@ def gen(rng):
             ops.append("api acct list")
             accts = dict(fileacc)
         elif r < 0.58:
-            # packets before any CONNECT
+            # packets before any CONNECT (and a valid CONNECT / more packets behind them in the same write)
             n_conn += 1
             name = f"k{n_conn}"
             ops.append("api state")
             ops.append(f"dial {name} v=4")
             first = rng.random()
+            valid = next(((a, accts[a]) for a in sorted(accts)), None)
+            more, kinds = pipeline(rng, 4, valid) if rng.random() < 0.7 else (b"", [])
+            tail = (" more=" + ",".join(kinds)) if kinds else ""
             if first < 0.35:
-                ops.append(f"raw {name} {enc_publish(4, b't/pre', b'pre', 0, True).hex()} k=publish q=0")
+                ops.append(f"raw {name} {(enc_publish(4, b't/pre', b'pre', 0, True) + more).hex()} k=publish q=0" + tail)
             elif first < 0.6:
-                ops.append(f"raw {name} {enc_subscribe(4, 1, b'#', 1).hex()} k=other")
+                ops.append(f"raw {name} {(enc_subscribe(4, 1, b'#', 1) + more).hex()} k=other" + tail)
             elif first < 0.8:
-                ops.append(f"raw {name} {PINGREQ.hex()} k=other")
+                ops.append(f"raw {name} {(PINGREQ + more).hex()} k=other" + tail)
             else:
                 ops.append(f"raw {name} ff00 k=garbage")
-            if first < 0.8 and rng.random() < 0.6 and accts:
-                u = rng.choice(sorted(accts))
-                ops.append(f"raw {name} {enc_connect(4, b'late', True, u, accts[u]).hex()} k=connect v=4 cid=late cs=1 uf=1 pf=1 user={tok(u)} pass={tok(accts[u])}")
-                ops.append(f"raw {name} {enc_publish(4, b't/pre2', b'pre2', 0, True).hex()} k=publish q=0")
             ops.append("api state")
         else:
             # a CONNECT: valid, near miss, or unknown
@@ -286,7 +309,7 @@ def gen(rng):
             else:
                 u, p = rng.choice(USERS), rng.choice(PWS)
             name, v, want = connect(u, p)
-            if want is not None and rng.random() < 0.6:
+            if want and rng.random() < 0.6:
                 traffic(name, v, want)
     ops.append("api state")
     return ops
@@ -557,7 +580,8 @@ RULE = ("the real plugin/auth loaded into an in-process broker (account API call
         "ConfigDir = / != working directory, relative / absolute password_file): account histories (set/del/failing saves/restart from "
         "the file/hand-written files with duplicate or empty user names) x CONNECTs of v3.1/v3.1.1/v5 with every user/password flag "
         "combination, near-miss credentials (case, prefix, extra byte, NUL, empty, 72/73/65535 bytes), AuthMethod/AuthData with and "
-        "without an enhanced-auth hook, packets before CONNECT and after a refused CONNECT, state snapshots around them; compared "
+        "without an enhanced-auth hook, packets before CONNECT and packets pipelined behind a CONNECT that is refused (the server closes a "
+        "refused connection itself, so the same write is the only way to get them there), state snapshots around them; compared "
         "with the Lean auth model in front of the broker model. non-trivial = one accepted and one refused CONNECT, or two refused")
 ASSUME = ["md5/sha256/bcrypt and YAML are not modelled (uninterpreted Crypto; hashes rendered symbolically by the harness)",
           "bcrypt refuses passwords over 72 bytes (golang.org/x/crypto v0.49)",
